@@ -51,6 +51,40 @@ Theorem C02_code_flush_loop : forall fuel n s f b,
 Proof. exact flush_loop_code. Qed.
 Print Assumptions C02_code_flush_loop.
 
+(* begin_read() / begin_write(): the first session constructs the UKVFile (the translated __init__), later ones reopen it; the
+   handle becomes Model.UKV.open_ of the backend's handle (h0 before the first session) -- so a stale cached table is refreshed
+   and, in a writing session, a torn tail is cut.  end_read() / end_write(): the handle is closed. *)
+Theorem C04_code_begin_read : forall fuel s f b hh1 hh2 bb0 rest,
+  (List.length f < fuel)%nat -> BRep s f b ->
+  f = (mk_header hh1 hh2 bb0 ++ rest)%list -> List.length hh1 = 16%nat -> len hh2 < 65536 -> len bb0 < 4294967296 ->
+  (has_uk b = false -> uk b = h0) -> (forall k, last (uk b) = Some k -> lookup (toc (uk b)) k <> None) ->
+  let '(s', o) := bexec fuel begin_read_prog s in
+  let '(f', h') := open_ f (uk b) MR in
+  o = BONormal /\ BRep s' f' (opened b h').
+Proof. exact begin_read_code. Qed.
+Print Assumptions C04_code_begin_read.
+
+Theorem C04_code_begin_write : forall fuel s f b hh1 hh2 bb0 rest,
+  (List.length f < fuel)%nat -> BRep s f b ->
+  f = (mk_header hh1 hh2 bb0 ++ rest)%list -> List.length hh1 = 16%nat -> len hh2 < 65536 -> len bb0 < 4294967296 ->
+  (has_uk b = false -> uk b = h0) -> (forall k, last (uk b) = Some k -> lookup (toc (uk b)) k <> None) ->
+  let '(s', o) := bexec fuel begin_write_prog s in
+  let '(f', h') := open_ f (uk b) MA in
+  o = BONormal /\ BRep s' f' (opened b h').
+Proof. exact begin_write_code. Qed.
+Print Assumptions C04_code_begin_write.
+
+Theorem C04_code_end_session : forall fuel prog s f b,
+  prog = BUkvCall close_prog [] -> BRep s f b -> has_uk b = true ->
+  (lookup_env (attrs (inner s)) "mode" = Some (VStr "r") \/ lookup_env (attrs (inner s)) "mode" = Some (VStr "a")) ->
+  let '(s', o) := bexec fuel prog s in
+  o = BONormal /\ BRep s' f (with_uk b (close_ (uk b))).
+Proof. exact end_code. Qed.
+Print Assumptions C04_code_end_session.
+
+Example C04_code_end_progs : end_read_prog = BUkvCall close_prog [] /\ end_write_prog = BUkvCall close_prog [].
+Proof. split; reflexivity. Qed.
+
 (* Non-vacuity: the translated layers RUN together on a concrete state: a buffered put, then a get that flushes it. *)
 Definition ex_inner : state :=
   mkst (repeat 0 32) (mks 0 true false)
